@@ -200,6 +200,19 @@ func main() {
 				case "req":
 					out := rn.request(e.R, e.G)
 					tr.Add(vh.Ev{"ev": "req", "r": e.R, "g": e.G, "out": out})
+				case "burst":
+					// n requests for one key handled one after the other at the same instant; only the number of passes is recorded
+					passes := 0
+					for i := 0; i < e.N; i++ {
+						switch rn.request(e.R, e.G) {
+						case "pass":
+							passes++
+						case "block":
+						default:
+							vh.Die("burst: unexpected action kind")
+						}
+					}
+					tr.Add(vh.Ev{"ev": "batch", "r": e.R, "g": e.G, "n": e.N, "passes": passes})
 				case "storm":
 					// n overlapping requests for one key; only the number of passes is recorded
 					var wg sync.WaitGroup
